@@ -5,6 +5,7 @@ import io
 import hashlib
 import traceback
 import os
+import sys
 
 from . import det
 from .det import CLOCK, statemod, mgrmod, eventmod, runmod, mockmod
@@ -524,6 +525,16 @@ class World:
         CLOCK.now += 0.0005
         ctl.engine = True
         outcome = "ok"
+        # the same recursion headroom for every engine step whoever calls it (generation and replay reach this point at different
+        # stack depths; an engine recursion that runs away - there is at least one, see KF-KIDS-RECURSION - would otherwise
+        # overflow at different places and leave different wreckage: found as a generate/replay mismatch in the thorough soak)
+        depth = 0
+        f = sys._getframe()
+        while f is not None:
+            depth += 1
+            f = f.f_back
+        old_limit = sys.getrecursionlimit()
+        sys.setrecursionlimit(depth + int(os.environ.get("VERIF_HEADROOM", "900")))
         try:
             mgr._Runnable__clear_on_success = True
             try:
@@ -544,6 +555,7 @@ class World:
                 outcome = "exc"
                 self.unhandled.append((ctl.step_no, MGR_NAMES[which], type(e).__name__, _exc_site(e)))
         finally:
+            sys.setrecursionlimit(old_limit)
             ctl.engine = False
             ctl.depth = 0
         sleep = mgr.in_backoff if mgr.in_backoff > 0 else (0.1 if which == 2 else self.cs.sleep[which])
